@@ -226,11 +226,11 @@ Proof.
   - unfold elem_ok in *. rewrite Hn. exact He.
   - rewrite Ho. destruct (i_of x0); cbn [tgt_rel]; auto.
 Qed.
-Lemma sl_single : forall m i x, find_inst (m_insts m) i = Some x -> i_n x <= 0 -> snd (rho m (i, 0)) = 0.
+Lemma sl_single : forall m m' i x, MR m m' -> find_inst (m_insts m) i = Some x -> i_n x <= 0 -> snd (rho m (i, 0)) = 0.
 Proof. reflexivity. Qed.
-Lemma sl_inj : forall m i e x j f y, find_inst (m_insts m) i = Some x -> elem_ok x e = true ->
+Lemma sl_inj : forall m m' i e x j f y, MR m m' -> find_inst (m_insts m) i = Some x -> elem_ok x e = true ->
   find_inst (m_insts m) j = Some y -> elem_ok y f = true -> rho m (i, e) = rho m (j, f) -> i = j /\ e = f.
-Proof. intros m i e x0 j f y0 _ _ _ _ E. inversion E. auto. Qed.
+Proof. intros m m' i e x0 j f y0 _ _ _ _ _ E. inversion E. auto. Qed.
 Lemma sl_loc : forall m m' i e x x' port k w t, MR m m' ->
   find_inst (m_insts m) i = Some x -> elem_ok x e = true ->
   find_inst (m_insts m') (fst (rho m (i, e))) = Some x' ->
